@@ -21,13 +21,13 @@ CLAIMED = {
  "C08": ("PR1 PR2 PR3 LX1 LX2", "typed-syntax-tree object identity checks + lexer state-function graph reachability + loop progress path search",
          "every ERROR arm reports the tested token's own Value; every illegalToken quotes the line of the token it cites; the scan ends only via an ERROR token or emit(EOF); a task body cannot reach EOF without RBRACE or error; every parser token loop advances and leaves on ERROR. Decides these clauses only, not totality/no-panic over all byte strings",
          "not covered: absence of panics and cursor arithmetic over all inputs (declined, value-level); line numbers within range"),
- "C09": ("SH1 RT1 RT2 RT3 RT4 GR6 CP8", "error-flow discipline check (non-nil edge must end in non-nil error returns) along the whole call chain + loop/guard shape analysis over go/ssa",
-         "the interpreter's exit status reaches Result.Status or the returned error; Ok() methods are Status==0 / conjunctions; every caller of SpokFile.Run examines every result unconditionally and fails on the first not-Ok; errors propagate on every call edge to Runner.Run; main reports on real stderr and exits non-zero; digests recorded only under Ok()",
+ "C09": ("SH1 SH2 RT1 RT2 RT3 RT4 GR6 CP8", "error-flow discipline check (non-nil edge must end in non-nil error returns) along the whole call chain + loop/guard shape analysis over go/ssa",
+         "the interpreter runs with errexit and its exit status reaches Result.Status or the returned error; Ok() methods are Status==0 / conjunctions; every caller of SpokFile.Run examines every result unconditionally and fails on the first not-Ok; errors propagate on every call edge to Runner.Run; main reports on real stderr and exits non-zero; digests recorded only under Ok()",
          "not covered: exit-status computation inside mvdan.cc/sh; flag validation inside the CLI library"),
  "C10": ("CP4 CP7 CP8 CP12", "ordering (must-precede) analysis on the intra-iteration CFG + error-edge discipline check over go/ssa",
          "crash points are covered by ordering constraints that hold on every CFG path: the recorded digest is invalidated and persisted before the commands start, a new digest is recorded only under Ok() of those commands, and a cache file that cannot be read/decoded always ends in an error",
          "not covered: atomicity of os.WriteFile beyond 'a torn JSON document does not decode' (encoding/json contract), kill during first-time cache.Init"),
- "C12": ("CL1-CL4 CL6 TK3 GL2", "effect inventory with interprocedural entry conditions (greatest fixpoint) + provenance slicing of every removal argument + containment-guard search over go/ssa",
+ "C12": ("CL1-CL4 CL6 CL7 TK3 GL2", "effect inventory with interprocedural entry conditions (greatest fixpoint) + provenance slicing of every removal argument + containment-guard search over go/ssa",
          "every os.Remove/RemoveAll is under Clean==true and HasTask(clean)==false; removed paths derive only from output fields / their Vars and Globs indirections / SpokFile.Dir+cache constant; every output kind reaches the removal; every output of the syntax tree reaches one of the three output fields; glob expansion records every non-hidden match (directories included); a separator-safe test relating each path to SpokFile.Dir with an erroring side precedes any removal",
          "not covered: correctness of the containment predicate for every path string; directories matched by output globs"),
  "C13": ("EN1-EN6 TK4 PS1", "data-flow chain verification by backward slicing with object flow (templates, buffers) over go/ssa",
@@ -48,8 +48,8 @@ CLAIMED = {
  "C19": ("FX1 FX2 FX3 FX4 FX6 CL1 CL3 CL4", "effect analysis: frozen effect tables + call-site inventory + interprocedural entry conditions + path-root provenance slicing over go/ssa/VTA",
          "every file-mutating primitive call of the module is either under an explicit action flag or rooted in <SpokFile.Dir>/<cache>; the --fmt write targets Options.Spokfile with Tree.String() after Parse and file.New succeeded; --init is guarded by an existence test of the same path and appends to .gitignore; listing branches reach no mutation; the logger has no file sink",
          "trusted: the effect tables of DESIGN.md appendix B (an unlisted external callee makes the check undecided). Not covered: effects of user commands / exec builtins (excluded by the property)"),
- "C20": ("ST1-ST8 GR6 RT4", "effect inventory of stdout writers with entry conditions + dominance of the stream silencing + buffer/stream pairing by origin tracing + sorted-before-write dominance over go/ssa",
-         "the only direct stdout write prints Results.JSON() under Options.JSON; JSON() marshals the untouched SpokFile.Run result (no element store, re-ordering or append to a re-slice through any alias) with the expected tags; --quiet/--json install the Null stream before any reader; capture buffers pair with the right stream and result fields; listings collect, sort, then write; default dispatch runs 'default' or lists",
+ "C20": ("ST1-ST9 GR6 RT4", "effect inventory of stdout writers with entry conditions + dominance of the stream silencing + buffer/stream pairing by origin tracing + sorted-before-write dominance over go/ssa",
+         "the only direct stdout write prints Results.JSON() under Options.JSON; JSON() marshals the untouched SpokFile.Run result (no element store, re-ordering or append to a re-slice through any alias) with the expected tags; --quiet/--json install the Null stream before any reader; capture buffers pair with the right stream and result fields; listings collect, sort, then write; no printf-style call of the module has a run-time format; default dispatch runs 'default' or lists",
          "not covered: encoding/json rendering, tabwriter layout, docstring text"),
 }
 
